@@ -27,8 +27,8 @@ PAIRS = [
      '<start> ::= <k> "=" <v>\n<k> ::= r"[a-c]+"\n<v> ::= <digit>+ ("." <digit>*)?\n<digit> ::= "0" | "7"\nwhere len(str(<v>)) >= 2\n', ["a=07", "abc=7.", "c=0.70"]),
     # A's search works on large individuals; B needs the evolutionary loop and has recursive rules, so anything an
     # operator object remembers from A's run (budgets, counters) would change what B's operators produce
-    ('<start> ::= <rec>{12,16}\n<rec> ::= <d>{3,5} ";"\n<d> ::= "0" | "1" | "2" | "3" | "4" | "5" | "6" | "7" | "8" | "9"\n'
-     'where sum(int(c) for c in str(<start>) if c.isdigit()) % 97 == 13\n',
+    ('<start> ::= <rec>{40,48}\n<rec> ::= <d>{3,5} ";"\n<d> ::= "0" | "1" | "2" | "3" | "4" | "5" | "6" | "7" | "8" | "9"\n'
+     'where sum(int(c) for c in str(<start>) if c.isdigit()) % 997 == 13\n',
      '<start> ::= <e>\n<e> ::= <t> | <t> "+" <e> | <t> "*" <e>\n<t> ::= <d> | "(" <e> ")" | <d> <t>\n<d> ::= "0" | "1" | "7"\n'
      'where eval(str(<start>)) % 50 == 27\n', ["7", "(7+1)*0", "17+(0)"], True),
 ]
@@ -110,7 +110,8 @@ def run(tier, seed):
     if len(hists) < 50:
         raise common.Machinery("only %d histories" % len(hists))
     rnd = random.Random(seed)
-    pairs = list(PAIRS) + [include_pair()]
+    # the pair whose verdict depends most on how the two searches happen to go is replayed under two more seedings
+    pairs = list(PAIRS) + [include_pair()] + [PAIRS[2][:3] + (17,)]
     for _ in range(2 if tier == "quick" else 12):
         ga = gen.rand_grammar(rnd, flavour="text", classes=gen.SMALL_CLASSES)
         gb = gen.rand_grammar(rnd, flavour="text", classes=gen.SMALL_CLASSES)
@@ -124,10 +125,11 @@ def run(tier, seed):
     for pi, pair in enumerate(pairs):
         a, b, words = pair[:3]
         hard = len(pair) > 3
+        off = pair[3] if hard and not isinstance(pair[3], bool) else 0
         for h in hists:
             first_b = next(i for i, s in enumerate(h) if s["x"] == "B")
             bsuffix = [s for s in h if s["x"] == "B"]
-            steps = job_for(h, a, b, words, seed, hard)
+            steps = job_for(h, a, b, words, seed + off, hard)
             # record only B's operations: mark by building the job so that A's steps come first is not possible in general,
             # so B's events are filtered by object name below
             cfg += 1
@@ -138,7 +140,7 @@ def run(tier, seed):
                 cfg += 1
                 baselines[key] = cfg
                 meta[cfg] = (pi, bsuffix)
-                jobs.append((cfg, {"steps": job_for(bsuffix, a, b, words, seed, hard), "record_from": 0, "only": "B"}))
+                jobs.append((cfg, {"steps": job_for(bsuffix, a, b, words, seed + off, hard), "record_from": 0, "only": "B"}))
     results = dict(pmap(_run, jobs, procs=8))
     pairs_out = []
     for c, (pi, h) in meta.items():
